@@ -92,7 +92,44 @@ func rndOperand(r *rand.Rand, field string) interface{} {
 
 var metaFields = []string{"cat", "tag", "flag", "n", "price", "zzz"}
 
+// rndFilter: a fresh random filter, or -- one time in four -- a probe of what the previous filter touched:
+// the same field and operand under eq / gte, or the existence of the field. A search is a pure question;
+// whatever an earlier one asked, a later one must find the index as the adds and removes left it.
+var prevFilter *comet.Filter
+
 func rndFilter(r *rand.Rand) comet.Filter {
+	if prevFilter != nil && r.Intn(4) == 0 {
+		p := *prevFilter
+		prevFilter = nil
+		return probeOf(r, p)
+	}
+	f := rndFilter0(r)
+	prevFilter = &f
+	return f
+}
+
+// probeOf: a question about what filter p touched -- the same field and operand under eq / gte, or the
+// existence of the field
+func probeOf(r *rand.Rand, p comet.Filter) comet.Filter {
+	{
+		scalar := false
+		switch p.Value.(type) {
+		case int, int64, float64, string, bool:
+			scalar = true
+		}
+		switch {
+		case scalar && r.Intn(3) != 0:
+			if _, isStr := p.Value.(string); !isStr && r.Intn(3) == 0 {
+				return comet.Gte(p.Field, p.Value)
+			}
+			return comet.Eq(p.Field, p.Value)
+		default:
+			return comet.Exists(p.Field)
+		}
+	}
+}
+
+func rndFilter0(r *rand.Rand) comet.Filter {
 	field := metaFields[r.Intn(len(metaFields))]
 	numeric := field == "n" || field == "price"
 	x := r.Intn(100)
